@@ -864,17 +864,24 @@ def run_c17(ck, ctx):
             ck.violation('panic', {'what': 'stdout closed after %d bytes: panic / abnormal exit' % k, 'args': args, 'exit': rc, 'stderr': errs[-500:]})
     # ---- stdout closed while the input keeps arriving (a producer that never ends, e.g. a live read-out piped through `| head`):
     # the end of the input cannot be what stops the tool here, only the broken pipe can
-    chunk = base * 4
-    for rep, args in enumerate([['view', 'rdh'], ['view', 'its-readout-frames'], ['view', 'its-readout-frames-data'], ['-f', '1'], ['-f', '2', '-o', 'stdout']]):
-        b = bins[rep % len(bins)]
+    chunk = base * 16
+    solo_pk, _ = G.conforming_stream(R, nlinks=1, max_hbf=8, hits=False)        # one link only: every packet matches the filter
+    solo = G.encode(solo_pk) * 64; solo_link = str(solo_pk[0].rdh['link'])
+    for rep, args in enumerate([['view', 'rdh'], ['view', 'its-readout-frames'], ['view', 'its-readout-frames-data'], ['-f', solo_link], ['-f', solo_link, '-o', 'stdout']]):
+        # filtered data is written when the writer's buffer (2^20 packets) is full: the broken pipe can only be noticed at the next
+        # flush, i.e. after up to a million more matching packets have been read — bounded, but by the buffer size, not by a few
+        # seconds; the release build is used there (the perturbed build sleeps at every hand-off) and the bound is generous
+        is_filter = args[0] == '-f'
+        b = L.BIN if is_filter else bins[rep % len(bins)]
+        exit_bound = 120.0 if is_filter else 10.0
         env = dict(os.environ, FASTPASTA_VERIF_SCHED=str(rep + 1)) if b == L.HOOKBIN else None
         p = subprocess.Popen([b] + args, stdin=subprocess.PIPE, stdout=subprocess.PIPE, stderr=subprocess.PIPE, env=env)
         stop_feed = threading.Event()
 
-        def feed(p=p, ev=stop_feed):
+        def feed(p=p, ev=stop_feed, blob=(solo if args[0] == '-f' else chunk)):
             try:
                 while not ev.is_set():
-                    p.stdin.write(chunk)
+                    p.stdin.write(blob)
             except (BrokenPipeError, OSError, ValueError):
                 pass
             try: p.stdin.close()
@@ -882,7 +889,7 @@ def run_c17(ck, ctx):
         ft = threading.Thread(target=feed, daemon=True); ft.start()
         errbuf = []
         th = threading.Thread(target=lambda p=p, e=errbuf: e.append(p.stderr.read()), daemon=True); th.start()
-        k = [200, 5000, 100000][rep % 3]
+        k = 0 if is_filter else [200, 5000, 100000][rep % 3]     # filtered data: nothing is written before the first flush; close at once
         got, tend = 0, time.time() + BOUND
         try:
             while got < k and time.time() < tend:
@@ -896,14 +903,15 @@ def run_c17(ck, ctx):
         ck.case(('closed_stdout_endless_input', rep)); ck.count('stop_closed_stdout_endless_input')
         t0 = time.time()
         try:
-            rc = p.wait(timeout=10.0)
+            rc = p.wait(timeout=exit_bound)
         except subprocess.TimeoutExpired:
             rc = None
+        ck.count('closed_stdout_endless_input_exit_s', round(time.time() - t0))
         stop_feed.set()
         if rc is None:
             p.kill(); p.wait()
-            ck.violation('hang', {'what': 'stdout closed after %d bytes while the input keeps arriving on stdin: the process was still running 10 s later '
-                                          '(the broken pipe is not noticed; only the end of the input would stop it)' % got, 'args': args,
+            ck.violation('hang', {'what': f'stdout closed after {got} bytes while the input keeps arriving on stdin: the process was still running {int(exit_bound)} s later '
+                                          '(the broken pipe is not noticed; only the end of the input would stop it)', 'args': args,
                                   'binary': 'hook' if b == L.HOOKBIN else 'release',
                                   'replay': 'while true; do cat conforming.raw; done | fastpasta ' + ' '.join(args) + ' | head -c %d' % k})
         else:
